@@ -116,7 +116,7 @@ func runStream(rd io.Reader, reuseMode int, r *Rng) streamOutcome {
 
 func checkC09(c *Ctx) {
 	r := c.Rng
-	c.Ev.Coverage.Rule = "NDJSON streams of 1..400 documents of very different sizes with blank lines anywhere (also only blank lines at the end, CRLF), read through a reader that fragments at sizes from {1,2,3,7,64,4095,4096,4097,random,whole} (cuts inside tokens, inside blank runs, right before/after LF), with the reuse channel fed never/sometimes/always, one run in five with a consumer that lags behind the reader (queue full when the reader ends); chunks in which an escape sequence straddles the 64-byte block boundary at which stage 1 hands over a full 1408-entry index buffer (five line shapes, boundary swept); delivered roots in order must equal the Coq specification nd_spec of the stream, followed by io.EOF and close, nothing after the error. With an injected reader error at a sweep of offsets (every offset for small streams): delivered documents must be a prefix of the specification's sequence, the injected error delivered last, then close. non-trivial = stream with >= 2 chunks; distinct = by (stream, fragmentation, failure offset)"
+	c.Ev.Coverage.Rule = "NDJSON streams of 1..400 documents of very different sizes (a share with white space between tokens, and lines whose last scalar — every kind — sits 1..8 bytes before the end of the line with white space before the closer) with blank lines anywhere (also only blank lines at the end, CRLF), read through a reader that fragments at sizes from {1,2,3,7,64,4095,4096,4097,random,whole} (cuts inside tokens, inside blank runs, right before/after LF), with the reuse channel fed never/sometimes/always, one run in five with a consumer that lags behind the reader (queue full when the reader ends); chunks in which an escape sequence straddles the 64-byte block boundary at which stage 1 hands over a full 1408-entry index buffer (five line shapes, boundary swept); delivered roots in order must equal the Coq specification nd_spec of the stream, followed by io.EOF and close, nothing after the error. With an injected reader error at a sweep of offsets (every offset for small streams): delivered documents must be a prefix of the specification's sequence, the injected error delivered last, then close. non-trivial = stream with >= 2 chunks; distinct = by (stream, fragmentation, failure offset)"
 	sizeSets := [][]int{{1}, {2}, {3}, {7}, {64}, {4095}, {4096}, {4097}, {1 << 20}, {1, 64, 3}, {5, 1, 1, 200}, nil}
 	type job struct {
 		stream []byte
@@ -137,13 +137,24 @@ func checkC09(c *Ctx) {
 			eol = "\r\n"
 		}
 		for l := 0; l < n; l++ {
-			switch x := r.Intn(10); {
+			switch x := r.Intn(12); {
 			case x < 2:
 				sb.WriteString([]string{"", " ", "\t", "  "}[r.Intn(4)])
 			case x == 2:
-				sb.Write(genDoc(r, &GenOpts{MaxDepth: 4, MaxFan: 5, TopFan: 30 + r.Intn(60)}))
+				sb.Write(genDoc(r, &GenOpts{MaxDepth: 4, MaxFan: 5, TopFan: 30 + r.Intn(60), WS: r.Intn(9)}))
+			case x == 3 || x == 4:
+				// documents whose last value sits 1..8 bytes before the end of the line (and so,
+				// under fragmentation, of the chunk): every scalar kind, white space before the closer
+				v := []string{"true", "false", "null", "0", "-1.5e3", `"s"`, `""`, "[]", "{}"}[r.Intn(9)]
+				gap := []string{"", " ", "\t", "  ", " \t ", "   "}[r.Intn(6)]
+				if r.Bool() {
+					sb.WriteString("[" + []string{"", "1,", `"x", `}[r.Intn(3)] + v + gap + "]")
+				} else {
+					sb.WriteString(`{"k":` + gap + v + gap + "}")
+				}
+				sb.WriteString([]string{"", "", " ", "\t"}[r.Intn(4)])
 			default:
-				sb.Write(genDoc(r, &GenOpts{MaxDepth: 3, MaxFan: 3, TopFan: 4}))
+				sb.Write(genDoc(r, &GenOpts{MaxDepth: 3, MaxFan: 3, TopFan: 4, WS: (r.Intn(3) / 2) * r.Intn(9)}))
 			}
 			sb.WriteString(eol)
 		}
